@@ -20,7 +20,8 @@ using Containers = TypeList<
     std::string, std::u16string, std::u32string, std::wstring,
     std::vector<std::uint8_t>, std::vector<std::int32_t>,
     std::vector<std::int64_t>, std::vector<std::string>, std::vector<Inner>,
-    std::array<std::uint8_t, 4>, std::array<std::int32_t, 3>,
+    std::array<std::uint8_t, 4>, std::array<std::int32_t, 3>, std::array<std::int32_t, 0>, std::array<bool, 3>,
+    std::array<std::string, 0>,
     std::array<std::string, 2>, std::array<Inner, 2>,
     std::map<int, std::string>, std::map<std::string, std::vector<int>>,
     std::unordered_map<int, std::string>,
